@@ -149,8 +149,17 @@ func MonitorC01(w *World, step int) []hx.Violation {
 	kind := w.LastOp.Kind
 	holders := map[uint32][]string{}
 	for _, lp := range w.LiveBound() {
+		seenIP := map[uint32]bool{} // overlapping requested ranges may list one address twice for the same pod
 		for _, ip := range lp.IPs {
-			holders[ip] = append(holders[ip], lp.Pod.Namespace+"/"+lp.Pod.Name+"("+string(lp.Pod.UID)+")")
+			if w.Voided[string(lp.Pod.UID)+"/"+strconv.FormatUint(uint64(ip), 10)] {
+				// a reload removed the address from the configuration while the pod held it (C04's "reload that still
+				// contains the IP"; the theorems carry the same side condition): the pod's claim is void
+				continue
+			}
+			if !seenIP[ip] {
+				seenIP[ip] = true
+				holders[ip] = append(holders[ip], lp.Pod.Namespace+"/"+lp.Pod.Name+"("+string(lp.Pod.UID)+")")
+			}
 		}
 	}
 	var ips []uint32
